@@ -7,7 +7,8 @@
    Epoch 1 holds the versions born before the concurrent phase, epoch 2 is the current one.  A writer's
    Delete2 is   [D0 outer token]  G1 GetNode (lookup under its own token)  N1 DeleteNode entry (read bornSn)
    N2 same-epoch: physical delete   N3 session flush carrying the node
-   N4 older epoch: deadSn CAS and garbage-list append.
+   N4 older epoch: deadSn CAS   N5 garbage-list append by the winner.
+   Writers are numbered 1..n in creation order (Writers \subseteq Nat).
    After the concurrent phase: NewSnapshot stitches the writers' lists, the snapshot is closed, a collection
    worker unlinks the list node by node and flushes a session carrying it, the barrier destructs sessions in
    order once their accessors are gone, the free worker walks each list and frees node by node, and Close
@@ -98,17 +99,22 @@ N3(w) ==          \* FlushSession(x): pinned = always, repaired = winner only
   /\ IF res[w] \/ ~FIXD3 THEN Flush(x[w]) ELSE UNCHANGED <<closedq, cur>>
   /\ res' = res /\ ReleaseOuter(w) /\ Go(w, "idle")
   /\ UNCHANGED <<nd, nalloc, x, nops, gchead, gctail, freeq, fw, gcw, gcwhead, snapgc, phase, uaf>>
-N4(w) ==          \* older epoch: deadSn CAS; the winner appends the node to its garbage list
-  /\ pc[w] = "N4" /\ Deref({x[w]} \cup (IF nd[x[w]].dead = 0 THEN {gctail[w]} ELSE {}))
+N4(w) ==          \* older epoch: the deadSn CAS decides the winner (nitro.go DeleteNode, vpDelNodeCAS)
+  /\ pc[w] = "N4" /\ Deref({x[w]})
   /\ IF nd[x[w]].dead = 0
        THEN /\ res' = [res EXCEPT ![w] = TRUE]
-            /\ LET n1 == [nd EXCEPT ![x[w]].dead = 2, ![x[w]].wins = @ + 1, ![x[w]].link = (IF FIXD3 THEN 0 ELSE @)] IN
-               nd' = (IF gctail[w] = 0 THEN n1 ELSE [n1 EXCEPT ![gctail[w]].link = x[w]])
-            /\ gchead' = [gchead EXCEPT ![w] = IF gctail[w] = 0 THEN x[w] ELSE @]
-            /\ gctail' = [gctail EXCEPT ![w] = x[w]]
-       ELSE /\ res' = [res EXCEPT ![w] = FALSE] /\ UNCHANGED <<nd, gchead, gctail>>
+            /\ nd' = [nd EXCEPT ![x[w]].dead = 2, ![x[w]].wins = @ + 1]
+            /\ Go(w, "N5") /\ UNCHANGED <<acc, outer>>
+       ELSE /\ res' = [res EXCEPT ![w] = FALSE] /\ nd' = nd /\ ReleaseOuter(w) /\ Go(w, "idle")
+  /\ UNCHANGED <<nalloc, x, nops, gchead, gctail, cur, closedq, freeq, fw, gcw, gcwhead, snapgc, phase>>
+N5(w) ==          \* the winner resets the node's link and appends it to its garbage list (vpDelNodeAppend)
+  /\ pc[w] = "N5" /\ Deref({x[w], gctail[w]})
+  /\ LET n1 == [nd EXCEPT ![x[w]].link = (IF FIXD3 THEN 0 ELSE @)] IN
+       nd' = (IF gctail[w] = 0 THEN n1 ELSE [n1 EXCEPT ![gctail[w]].link = x[w]])
+  /\ gchead' = [gchead EXCEPT ![w] = IF gctail[w] = 0 THEN x[w] ELSE @]
+  /\ gctail' = [gctail EXCEPT ![w] = x[w]]
   /\ ReleaseOuter(w) /\ Go(w, "idle")
-  /\ UNCHANGED <<nalloc, x, nops, cur, closedq, freeq, fw, gcw, gcwhead, snapgc, phase>>
+  /\ UNCHANGED <<nalloc, x, res, nops, cur, closedq, freeq, fw, gcw, gcwhead, snapgc, phase>>
 
 (* ---- barrier: the oldest closed session is destructed once it and all earlier sessions have no accessor ---- *)
 Destruct ==
@@ -130,7 +136,7 @@ FwFree == /\ fw # 0 /\ Deref({fw})
 RECURSIVE Stitch(_, _, _)
 \* NewSnapshot: chain the writers' lists (tail.SetLink(next head)); returns [nd, head, tail]
 Stitch(ws, st, f) == IF ws = {} THEN [nd |-> f, head |-> st.head, tail |-> st.tail]
-                     ELSE LET w == CHOOSE v \in ws : TRUE IN
+                     ELSE LET w == CHOOSE v \in ws : \A u \in ws : u <= v IN      \* newest writer first (Nitro.wlist is a prepend list)
                           IF gchead[w] = 0 THEN Stitch(ws \ {w}, st, f)
                           ELSE IF st.tail = 0 THEN Stitch(ws \ {w}, [head |-> gchead[w], tail |-> gctail[w]], f)
                           ELSE Stitch(ws \ {w}, [head |-> st.head, tail |-> gctail[w]], [f EXCEPT ![st.tail].link = gchead[w]])
@@ -156,7 +162,7 @@ CloseDB ==        \* Nitro.Close: workers drained, then every node still linked 
   /\ phase' = "closed"
   /\ UNCHANGED <<nalloc, pc, x, res, nops, outer, gchead, gctail, cur, acc, closedq, freeq, fw, gcw, gcwhead, snapgc, uaf>>
 
-Next == \/ \E w \in Writers : Put(w) \/ DelStart(w) \/ G1(w) \/ N1(w) \/ N2(w) \/ N3(w) \/ N4(w)
+Next == \/ \E w \in Writers : Put(w) \/ DelStart(w) \/ G1(w) \/ N1(w) \/ N2(w) \/ N3(w) \/ N4(w) \/ N5(w)
         \/ Destruct \/ FwTake \/ FwFree \/ Snapshot \/ GcStep \/ CloseDB
 Spec == Init /\ [][Next]_vars
 
